@@ -422,6 +422,14 @@ impl Deb822 {
                 _ => {}
             }
         }
+        // Reformat first and sort the results: the order then depends only on what
+        // is written out, so a second pass finds nothing to move.
+        if let Some(ref ws) = wrap_and_sort_paragraph {
+            paragraphs = paragraphs
+                .into_iter()
+                .map(|(pre, paragraph)| (pre, ws(&paragraph)))
+                .collect();
+        }
         if let Some(sort_paragraph) = sort_paragraphs {
             paragraphs.sort_by(|a, b| {
                 let a_key = &a.1;
@@ -442,11 +450,7 @@ impl Deb822 {
                     builder.token(NEWLINE.into(), "\n");
                 }
             }
-            let new_paragraph = if let Some(ref ws) = wrap_and_sort_paragraph {
-                ws(&paragraph.1)
-            } else {
-                paragraph.1
-            };
+            let new_paragraph = paragraph.1;
             // A paragraph that was the unterminated end of the input needs its line
             // terminator once something can follow it.
             let terminated = new_paragraph
@@ -780,6 +784,23 @@ impl Paragraph {
             }
         }
 
+        // Reformat first and sort the results: the order then depends only on what
+        // is written out, so a second pass finds nothing to move.
+        let mut entries = entries
+            .into_iter()
+            .map(|(pre, entry)| {
+                (
+                    pre,
+                    entry.wrap_and_sort(
+                        indentation,
+                        immediate_empty_line,
+                        max_line_length_one_liner,
+                        format_value,
+                    ),
+                )
+            })
+            .collect::<Vec<_>>();
+
         if let Some(sort_entry) = sort_entries {
             entries.sort_by(|a, b| {
                 let a_key = &a.1;
@@ -797,17 +818,7 @@ impl Paragraph {
                 }
             }
 
-            inject(
-                &mut builder,
-                entry
-                    .wrap_and_sort(
-                        indentation,
-                        immediate_empty_line,
-                        max_line_length_one_liner,
-                        format_value,
-                    )
-                    .0,
-            );
+            inject(&mut builder, entry.0);
         }
 
         for c in current {
